@@ -54,7 +54,7 @@ VARIABLES info,       \* what the metadata file holds
           shard,      \* payload of the chunk inside the shard file
           kind,       \* per handle: "closed" | "plain" | "sharded" | "http" | "httpsharded"
           pend,       \* per handle: payload accepted by a sharded session, not yet on disk
-          openedFor,  \* ghost, per handle: did the metadata announce sharding when it was opened
+          openedFor,  \* ghost, per handle: was it opened for a sharded dataset (metadata or option)
           latest,     \* ghost: payload of the last completed store
           epoch,      \* ghost: TRUE while the metadata is the one the first store saw
           nops
@@ -115,7 +115,10 @@ Open(h, scheme, so) ==
   /\ Tick /\ kind[h] = "closed"
   /\ LET r == Route(scheme, so) IN
      kind' = [kind EXCEPT ![h] = IF r = "error" THEN "closed" ELSE r]
-  /\ openedFor' = [openedFor EXCEPT ![h] = Announces(info)]
+  \* (a caller who passes the sharding option vouches that the dataset is / will be sharded:
+  \* convert-chunks --copy-info and volume-to-precomputed --sharding open the destination that
+  \* way BEFORE its metadata exists)
+  /\ openedFor' = [openedFor EXCEPT ![h] = Announces(info) \/ so = "true"]
   /\ UNCHANGED <<info, readable, plain, shard, pend, latest, epoch>>
 
 \* store through an open local handle (overwrite allowed)
